@@ -85,6 +85,10 @@ def run(ck: Checker, prog: Program, tier: str):
     from . import c20
     with ck.borrow(c20, "C12.R6+"):
         ck.guard(c20._read_only, ck, prog)
+    # the state that is written is the container's own: members are private copies (rule of C08), so nothing changes a member
+    # behind the back of the metadata that is written with it
+    with ck.borrow(c08, "C12.R7+"):
+        ck.guard(c08._members_private, ck, prog)
 
 
 def _meta_private(ck: Checker, prog: Program):
